@@ -407,6 +407,9 @@ class _GitFile(IO[bytes]):
                     # Windows versions prior to Vista don't support atomic
                     # renames
                     _fancy_rename(self._lockfilename, self._filename)
+            # The lockfile has been renamed away; whatever exists at the lock
+            # path now belongs to somebody else and must not be removed.
+            self._closed = True
         finally:
             self.abort()
 
